@@ -109,7 +109,7 @@ def finish(rep: Report) -> int:
     distinct = set()
     for r in rep.rules:
         n = len(r.obs)
-        if n < r.floor and all(ob.ok for ob in r.obs):
+        if n < r.floor and all(ob.ok for rr in rep.rules for ob in rr.obs):
             raise AnalysisError(
                 f"rule {prop}.{r.rid} ({r.title}) matched {n} instance(s), below its anchor floor {r.floor}: "
                 "the constructs it reasons about were not found"
